@@ -140,7 +140,7 @@ class Check:
     exhaustive = True
 
     def runs(self, tier):
-        return 300 if tier == 'quick' else 6000
+        return 300 if tier == 'quick' else 30000
 
     def wall_cap(self, tier):
         return 800 if tier == 'quick' else 6600
